@@ -6,8 +6,9 @@ Appends to seeded/RESULTS.tsv; render with tools/results_md.py."""
 import json, os, subprocess, sys, time, shutil
 from concurrent.futures import ThreadPoolExecutor
 
-ROOT = "/verif"
+SRC = "/verif"
 SW = "/tmp/sw"
+ROOT = SRC      # replaced by a snapshot of /verif in main(), so that edits made while the sweep runs do not reach it
 
 def one(job):
     mid, prop, tier, seed = job
@@ -21,13 +22,13 @@ def one(job):
                            stdout=subprocess.PIPE, stderr=subprocess.STDOUT, text=True)
         if p.returncode != 0:
             return (mid, prop, "NOAPPLY", 0, p.stdout.strip()[:100])
-        env = dict(os.environ, VERIF_REPO=wt, VERIF_SCRATCH=os.path.join(d, "s"), VERIF_SKIP_MC="1", VERIF_SEED=str(seed))
+        env = dict(os.environ, VERIF_TARGET_SEED=os.path.join(SRC, "harness", "target"), VERIF_REPO=wt, VERIF_SCRATCH=os.path.join(d, "s"), VERIF_SKIP_MC="1", VERIF_SEED=str(seed))
         t0 = time.time()
         p = subprocess.run([os.path.join(ROOT, "check"), prop, "--tier", tier], cwd=ROOT, env=env, stdout=subprocess.PIPE,
                            stderr=subprocess.STDOUT, text=True)
         wall = time.time() - t0
-        os.makedirs(os.path.join(ROOT, "work", "sweep"), exist_ok=True)
-        open(os.path.join(ROOT, "work", "sweep", "%s-%s.log" % (mid, prop)), "w").write(p.stdout)
+        os.makedirs(os.path.join(SRC, "work", "sweep"), exist_ok=True)
+        open(os.path.join(SRC, "work", "sweep", "%s-%s.log" % (mid, prop)), "w").write(p.stdout)
         why = ""
         for line in p.stdout.splitlines():
             if "reason:" in line or "TOOL-ERROR" in line:
@@ -44,6 +45,7 @@ def one(job):
         shutil.rmtree(d, ignore_errors=True)
 
 def main():
+    global ROOT
     args = sys.argv[1:]
     j, tier, props = 4, "quick", None
     while args and args[0].startswith("-"):
@@ -63,13 +65,17 @@ def main():
         for p in (props or [meta["property"]]):
             jobs.append((mid, p, tier, seed))
     os.makedirs(SW, exist_ok=True)
-    out = open(os.path.join(ROOT, "seeded", "RESULTS.tsv"), "a")
+    ROOT = os.path.join(SW, "snap-%d" % os.getpid())
+    subprocess.run(["rsync", "-a", "--delete", "--exclude", ".git", "--exclude", "work", "--exclude", "target", "--exclude", "replays",
+                    "--exclude", "evidence", "--exclude", "__pycache__", SRC + "/", ROOT + "/"], check=True)
+    out = open(os.path.join(SRC, "seeded", "RESULTS.tsv"), "a")
     with ThreadPoolExecutor(max_workers=j) as ex:
         for mid, prop, res, wall, why in ex.map(one, jobs):
             line = "%s\t%s\t%s\t%ds\t%s" % (mid, prop, res, wall, why)
             print(line, flush=True)
             out.write(line + "\n"); out.flush()
     subprocess.run(["git", "-C", "/repo", "worktree", "prune"])
+    shutil.rmtree(ROOT, ignore_errors=True)
 
 if __name__ == "__main__":
     main()
